@@ -24,6 +24,7 @@ os.environ.setdefault('NUMBA_CACHE_DIR', str(HERE.parent / '.work' / 'numba_cach
 from lib import core  # noqa: E402
 from lib.kinds import safe_run  # noqa: E402
 from translate import run_translators  # noqa: E402
+import fingerprint  # noqa: E402
 
 DEFAULT_SEED = 20260926
 MAX_REPORTED = 6
@@ -118,6 +119,11 @@ def check_property(prop_id, tier, seed):
         coqchk = None
         if tier == 'thorough' and ok_prop:
             coqchk = core.run_coqchk(prop_id)
+        # change-triggered escalation (never an alarm by itself)
+        changed_src = fingerprint.changed_files(core.REPO, anchor_files(prop_id) + list(getattr(mod, 'EXTRA_ANCHORS', [])))
+        escalate = bool(changed_src) and os.environ.get('VERIF_NO_ESCALATION') != '1'
+        if changed_src:
+            notes.append(f'anchored sources differ from tools/fingerprints.json: {changed_src}' + (' -- quick generators run with 3 seed streams' if escalate and tier == 'quick' else ''))
         # 5. C-tie
         evaluations = 0
         distinct = set()
@@ -140,6 +146,15 @@ def check_property(prop_id, tier, seed):
             for kind in mod.KINDS:
                 rng = core.make_rng(seed, f'{prop_id}/{kind.name}')
                 cases = [c for (k, c) in corpus_cases if k is kind] + list(kind.gen(rng, tier))
+                if escalate and tier == 'quick' and not getattr(kind, 'no_escalation', False):
+                    # the anchored sources changed since the fingerprints were recorded: two more generator streams
+                    seen_h = {core.case_hash(c) for c in cases}
+                    for extra in (1, 2):
+                        for c in kind.gen(core.make_rng(seed + extra, f'{prop_id}/{kind.name}'), tier):
+                            h = core.case_hash(c)
+                            if h not in seen_h:
+                                seen_h.add(h)
+                                cases.append(c)
                 if not cases:
                     continue
                 tk = time.time()
@@ -232,7 +247,7 @@ def check_property(prop_id, tier, seed):
             'rule': '; '.join(f'{k.name}: {k.rule}' for k in mod.KINDS),
             'samples': samples[:6], 'traces_validated_against_impl': evaluations,
             'per_kind': per_kind, 'input_distribution': dict(sorted(hist.items())),
-            'tie': {'translators': ttie, 'c_tie_ran': ok_model}, 'notes': notes,
+            'tie': {'translators': ttie, 'c_tie_ran': ok_model}, 'notes': notes, 'changed_anchor_sources': changed_src, 'escalated': bool(escalate and tier == 'quick'),
             'build_s': round(t_model + t_prop, 1), 'exhaustive': bool(getattr(mod, 'EXHAUSTIVE', False)),
         }
         if coqchk is not None:
@@ -256,6 +271,15 @@ def check_property(prop_id, tier, seed):
         return rc
     finally:
         shutil.rmtree(workdir, ignore_errors=True)
+
+
+def anchor_files(prop_id):
+    for line in (core.VERIF / 'properties.jsonl').read_text().splitlines():
+        if line.strip():
+            p = json.loads(line)
+            if p['id'] == prop_id:
+                return list(p['anchors']['files'])
+    return []
 
 
 def known_lines_cover(broken):
